@@ -27,7 +27,8 @@ LEVEL = "exploration"
 RULE = (
     "A run = protocol version x 1..5 concurrent requests, each (kind: unicast / +source route / "
     "+extended timeout / both / IEEE-addressed / multicast / broadcast; enqueue-status script of up to 3 "
-    "attempts over {accepted, 3 busy statuses, 3 refusals}; confirmation behaviour from 9), optionally "
+    "attempts over {accepted, 3 busy statuses, 3 refusals, any other non-busy status code of the family}; "
+    "confirmation behaviour from 9 + failure with any status code of the family), optionally "
     "with a concurrent keep-alive.  Single-request scripts are enumerated exhaustively per version "
     "(every enqueue script x every confirmation behaviour for a plain unicast; every kind x a reduced "
     "set); multi-request runs are seeded random.  Non-trivial = not (single request, accepted at once, "
@@ -44,7 +45,7 @@ ASSUMPTIONS = [
 REACH = {t: ["versions_11", "enq_accepted", "enq_busy_then_ok", "enq_busy_exhausted", "enq_refused", "conf_success",
              "conf_fail", "conf_none", "conf_duplicate", "conf_other_tag", "conf_other_dest", "conf_unsolicited",
              "conf_before_reply", "conf_late", "setup_overlap_attempted", "kind_mcast", "kind_bcast", "kind_ieee",
-             "kind_uni_sr_et", "v14_layout", "pending_empty_checked"] for t in ("quick", "thorough")}
+             "kind_uni_sr_et", "v14_layout", "pending_empty_checked", "status_family_swept"] for t in ("quick", "thorough")}
 SHARD_TIMEOUT = {"quick": 900, "thorough": 3600}
 
 ENQ = ["ok", "busy_max", "busy_net", "busy_buf", "ref_call", "ref_down", "ref_undef"]
@@ -96,7 +97,7 @@ def expected(req, APS_T, NRETRY):
     c = req["conf"]
     if c in ("success", "duplicate", "unsolicited", "before_reply"):
         return "ret", "confirmed"
-    if c == "fail":
+    if c in ("fail", "fail_rand"):
         return "DeliveryError", "confirmed-failure"
     return "TimeoutError", "no-own-confirmation"
 
@@ -121,6 +122,12 @@ def gen_cases(tier, seed, V):
         for sc in ([["ok"]], [["busy_max", "ok"]], [["ref_call"]], [["busy_net", "busy_buf", "busy_max"]]):
             for c in (CONF if tier == "thorough" else ["success", "fail", "none", "before_reply", "duplicate"]):
                 cases.append({"reqs": [dict(kind=k, enq=sc[0], conf=c)], "feed": False})
+    # the reason for a refusal / a failed delivery must not matter: every other status code of the family
+    for j in range(0, 256):
+        cases.append({"reqs": [dict(kind="uni", enq=["ref_rand"] * 3, conf="success", rand=j)], "feed": False})
+        cases.append({"reqs": [dict(kind="uni", enq=["ok"], conf="fail_rand", rand=j)], "feed": False})
+        if j % 16 == 0:
+            cases.append({"reqs": [dict(kind=KINDS[1 + (j // 16) % 6], enq=["busy_max", "ref_rand"], conf="success", rand=j)], "feed": False})
     n = 250 if tier == "quick" else 4000
     for _ in range(n):
         m = rnd.choice([2, 2, 3, 3, 4, 5])
@@ -149,7 +156,20 @@ def run_shard(desc) -> Acc:
     V = desc["version"]
     APS_T = float(A.APS_ACK_TIMEOUT)
     DELAYS = [float(x) for x in A.RETRY_DELAYS]
-    ST = SL_ST if V >= 14 else EMBER_ST
+    ST0 = SL_ST if V >= 14 else EMBER_ST
+    import bellows.types as bt_
+
+    busy_codes = {ST0[k] for k in ("busy_max", "busy_net", "busy_buf")}
+    if V >= 14:
+        family = sorted(int(m) for m in bt_.sl_Status if int(m) != 0 and int(m) not in busy_codes) + [0x7777, 0xFFFFFFFF, 0x0F00]
+    else:
+        family = [c for c in range(1, 256) if c not in busy_codes]
+    codes_seen = set()
+
+    class _ST(dict):
+        pass
+
+    ST = _ST(ST0)
     acc.reach["version:%d" % V] += 1
     if V >= 14:
         acc.hit("v14_layout")
@@ -182,6 +202,9 @@ def run_shard(desc) -> Acc:
                 r["attempt"] += 1
                 r["send_times"].append(now)
                 st = (r["enq"] + ["ok"] * 3)[k] if k < 3 else "ok"
+                ST["ref_rand"] = ST["fail_rand"] = family[r.get("rand", 0) % len(family)]
+                if st == "ref_rand" or r["conf"] == "fail_rand":
+                    codes_seen.add(ST["ref_rand"])
                 r["tags"].append(p["tag"])
                 if name == "sendUnicast":
                     if p["trailing"] or p["msg"] != r["payload"]:
@@ -205,6 +228,8 @@ def run_shard(desc) -> Acc:
                         conf(p["dest"], p["tag"], ST["ok"], 0.05)
                     elif c == "fail":
                         conf(p["dest"], p["tag"], ST["fail"], 0.05)
+                    elif c == "fail_rand":
+                        conf(p["dest"], p["tag"], ST["fail_rand"], 0.05)
                     elif c == "duplicate":
                         conf(p["dest"], p["tag"], ST["ok"], 0.05)
                         conf(p["dest"], p["tag"], ST["ok"], 0.06)
@@ -406,6 +431,9 @@ def run_shard(desc) -> Acc:
         vloop.run(main)
     except ncpsim.BringUpFailed:
         pass
+    acc.ev("distinct_refusal_or_failure_status_codes", len(codes_seen))
+    if len(codes_seen) >= min(len(family), 80 // max(1, desc["n"])):
+        acc.hit("status_family_swept")
     return acc
 
 
